@@ -79,7 +79,8 @@ func (cs *aClientState) run() {
 				_ = cs.cur.conn.Close()
 			}
 			if !cs.connect() {
-				r.out.Harness = "client could not connect"
+				// the agent stayed down for 100 simulated seconds: the client gives up; whatever kept the agent down is judged by the stop and liveness rules
+				r.out.probe("client_gave_up_connecting", 1)
 				return
 			}
 		}
@@ -121,6 +122,9 @@ func (cs *aClientState) run() {
 				cr.recs = append(cr.recs, sr)
 			}
 		}
+	}
+	if cs.spec.HoldOpen {
+		return
 	}
 	if cs.spec.TailMs > 0 {
 		simrt.Sleep("a.client.tail", ms(cs.spec.TailMs))
